@@ -238,10 +238,30 @@ SOURCE_TIE = {
              "C14_file_version_from_source and C14_file_info_from_source prove, for every register word, that "
              "model/XmlFetch.v's version_of / file_type / compression_type (div / mod) are the translated shift-and-mask "
              "code, and that the tests the model's loop and fetch branch on are exactly the outcomes Ok(DeviceXml) / "
-             "Ok(BufferXml) / Err(InvalidDevice) of the translated code (C14_source_examples: non-vacuity).",
+             "Ok(BufferXml) / Err(InvalidDevice) of the translated code (C14_source_examples: non-vacuity). THE RETRIEVAL "
+             "ITSELF is translated too: tools/translate_xmlfetch.py re-translates on every run, statement by statement, "
+             "DeviceControl::genapi (with its local zip_err) and ControlHandle::verify_xml of control_handle.rs and "
+             "ManifestTable::{new, entries, read_register}, ManifestEntry::{new, file_info, genicam_file_version, "
+             "file_address, file_size, sha1_hash, read_register} of register_map.rs into gen/XmlFetchSrc.v (X monad of "
+             "model/XmlFetch.v, operation vocabulary model/XfOps.v: `?` / unwrap_or_log! = bind, `let mut` / assignment = "
+             "rebinding, the `for` loop over the entries iterator = a fuelled fold with the closure evaluated per item, "
+             "debug-build u64 arithmetic, a dropped Result is a ShapeError; the translated decoders of gen/DecodersSrc.v are "
+             "re-used). C14_entries_from_source, C14_selection_from_source (loop body and the loop for ANY number of entries, "
+             "by induction), C14_fetch_from_source (verify_xml and everything after the loop) and C14_genapi_from_source prove "
+             "the translated functions equal to model/XmlFetch.v's entries / scan_entry / scan / verify_xml / fetch / genapi "
+             "pointwise, for every handle state, device world and sha1 / unzip oracle (only hypothesis: a table address is "
+             "not negative); C14_selection_of_source transfers C14_selects_newest to the translated loop (maximal version, "
+             "first among equals); C14_retrieval_source_example runs the translated genapi by vm_compute.",
         note=" Also trusted: tools/translate_decoders.py + tools/minirust.py and lib/RustInt.v for the three translated "
-             "decoders.",
-        technique=" + code translator (file version / file info decoders of register_map.rs)"),
+             "decoders; tools/translate_xmlfetch.py (parser, receiver-type-directed method resolution, rebinding discipline) "
+             "and model/XfOps.v (what each operation of the vocabulary means: device read, read_register::<T>, zeroed "
+             "buffers as lengths, Range / Map iteration, semver order, the zip crate over the unzip oracle, u64 -> usize "
+             "try_into as infallible on the 64-bit target, Vec::with_capacity taken not to fail); ControlHandle::"
+             "{manifest_table, read}, the free fn read_register and unwrap_or_log! are pinned / taken from the model, not "
+             "translated.",
+        technique=" + code translators (file version / file info decoders of register_map.rs; statement-level translation of "
+                  "genapi / verify_xml / ManifestTable::entries / ManifestEntry accessors, pointwise equality with the model, "
+                  "induction over the entry loop)"),
     "C11": dict(
         text=" TIE TO THE SOURCE CODE: tools/translate_streamparse.py (own recursive-descent parser for the subset of Rust "
              "these functions use, type checker, Gallina emitter; debug-build integer semantics of lib/RustInt.v; cursor "
@@ -273,7 +293,105 @@ SOURCE_TIE = {
              "model/RdOps.v (the meaning given to Cursor::read_exact, slicing, Vec::resize, `loop`); StreamingLoop::run "
              "(the received byte count it passes to PayloadBuilder) is C12's, not translated here.",
         technique=" + code translator (leader / trailer decoders of stream.rs, PayloadBuilder of stream_handle.rs, Payload views of payload.rs)"),
+    "C05": dict(
+        text=" TIE TO THE SOURCE CODE (evaluator): tools/translate_formulaops.py (own tokenizer, recursive-descent parser, "
+             "type checker and Gallina emitter; the local macro_rules! apply_arithmetic_op / apply_cmp_op / apply_op are "
+             "expanded token-wise from their parsed definitions) re-translates on every run, from genapi/src/formula.rs into "
+             "gen/FormulaOpsSrc.v: the three From impls and as_integer / as_float / as_bool / is_integer of EvaluationResult, "
+             "fn wrapping_pow (its `while` loop becomes a Fixpoint over a fuel argument), every arm of Expr::eval_binop (which "
+             "operand combination takes the integer or the float path, overflowing_add/sub/mul/rem(..).0, `/` always in f64, "
+             "the zero-divisor error before overflowing_rem, the guard and the `as u64` of `**`, overflowing_shl/shr(rhs as "
+             "u32).0, & | ^ on as_integer(), comparisons through From<bool>, the placement of the `?`s of && and ||, "
+             "unreachable!()), every arm of Expr::eval_unop with the class of its result, and Expr::eval (dispatch, ternary, "
+             "literals, identifier lookup). Primitives get their meaning in model/FormulaOps.v (i64 methods exactly; every "
+             "arithmetic f64 operation is a call into the oracle record, as in the model) and lib/RustInt.v. "
+             "C05_binop_from_source: for every operator, all operand values (every i64, every float pattern) and every "
+             "oracle record the translated arm returns what the model's binop_strict returns - same value, same class, same "
+             "error; with the operands given by their evaluations the translated function is the EBin clause of the model's "
+             "eval (short circuit included); the translated wrapping_pow loop is the model's power for every base and u64 "
+             "exponent; the shift count is the count modulo 64. C05_unop_from_source, C05_coercions_from_source: the same for "
+             "eval_unop and the coercions. C05_eval_from_source: the translated Expr::eval IS the model's eval for every "
+             "expression, environment (integer literals i64) and fuel. C05_operators_of_source states the property's clauses "
+             "on the translated code alone (no operator arm panics for any operands; + - * are arithmetic modulo 2^64; "
+             "shifts by the count modulo 64; integer % fails exactly on 0; the power loop never uses up its fuel), "
+             "C05_enums_cross_check that the translator's reading of BinOpKind / UnOpKind agrees with "
+             "tools/translate_funcs.py's, C05_source_examples: non-vacuity. A source change outside the accepted subset is "
+             "reported as a broken proof obligation (ShapeError), a change inside it breaks the equalities.",
+        note=" Also trusted: tools/translate_formulaops.py (parser, typing of literals and conversions, token-wise macro "
+             "expansion, erasure of references, an `&Expr` operand represented by the outcome of evaluating it in the "
+             "unchanged environment), model/FormulaOps.v (overflowing_* / wrapping_* / signum / `as` casts of i64; f64 "
+             "methods named as fields of the oracle record; neg / abs / signum / `!= 0.0` as bit manipulation) and "
+             "lib/RustInt.v; the lexer and parser of formula.rs are not translated (tables only, tools/translate_funcs.py).",
+        technique=" + code translator (evaluator of formula.rs: coercions, wrapping_pow, eval_binop, eval_unop, eval)"),
 }
+SOURCE_TIE["C20"] = dict(
+    text=" TIE TO THE SOURCE CODE (hand-written part of impl/src/memory.rs; the proc macros stay tied by correspondence): "
+         "tools/translate_memprot.py (typed mini-Rust parser / Gallina emitter tools/minirust.py extended with `/` `%`, "
+         "indexing, `&mut v[i]` places with `*x` / `*x = e`, ranges, closures, for / fold / for_each, vec![x; n], struct "
+         "literals, enum matches with guards, later-use typing of `let x = <literal expression>`; debug-build semantics of "
+         "lib/RustInt.v: overflow, division, shift-amount panics) re-translates on every run into gen/MemProtSrc.v: enum "
+         "AccessRight (declaration order, derive(PartialEq) checked) with is_readable / is_writable / as_num / meet / "
+         "from_num (debug_assert! and unreachable! are Panic), enum MemoryError (the error classes), struct "
+         "MemoryProtection with EVERY method of its impl (new: the ceil(size/4) vector; set_access_right: byte index, bit "
+         "offset, mask-and-or through the `&mut` element; access_right: the extraction; access_right_with_range: fold of "
+         "meet from RW; set_access_right_with_range; verify_address; verify_address_with_range: the `for` loop with `?`), "
+         "and the provided methods write / read / range of trait Register (associated constants and the required parse / "
+         "serialize are fields of a record; memory[range] index panic, copy_from_slice length panic, ADDRESS + LENGTH "
+         "overflow). Vec / slice / iterator operations get their meaning in model/MemProtOps.v; an impl IntoIterator<Item = "
+         "usize> is the list of its items. C20_access_right_from_source (all 4 rights, all 16 pairs of meet, every number "
+         "given to from_num), C20_protection_from_source (every usize size / address, every right, item lists of any length "
+         "by induction, EVERY vector incl. ill-formed ones: same Ok / Panic), C20_verify_from_source (no hypothesis; the "
+         "model's fuelled loop over a Range is the translated loop over the range's items; empty range Ok) and "
+         "C20_register_rw_from_source (every implementor record and every slice shorter than 2^64; with the model's "
+         "register as implementor: reg_read, and reg_write for every non-BitField type) prove the translated functions "
+         "equal to model/Memory.v's ar_* / prot_* / region_of / reg_read / reg_write. On the translated code alone: "
+         "C20_protection_cells_of_source (set-then-get on the packed vector for every address below the size and every "
+         "right, all other addresses untouched, well-formedness kept), C20_protection_new_of_source, "
+         "C20_range_right_of_source (a range is readable / writable iff every cell is), C20_verify_of_source (accepted iff "
+         "below the size, never a panic), C20_source_examples (the source's own unit test gives the packed bytes [141; 1]; "
+         "an error; a panic). A source change outside the accepted subset (also: any method added to or removed from the "
+         "three blocks) is reported as a broken proof obligation (ShapeError), a change inside it breaks the equalities.",
+    note=" Also trusted: tools/translate_memprot.py + tools/minirust.py (parser, typing of literals, threading of the one "
+         "`&mut` parameter as the function's result - mutations are only accepted in the top-level block or a loop body, a "
+         "`&mut v[i]` local is the checked index into the current container, which the borrow checker keeps otherwise "
+         "untouched) and model/MemProtOps.v (Vec indexing / IndexMut / slicing / copy_from_slice panics, vec![x; n] without "
+         "allocation failure, iterators as finite item lists); AccessRight::as_str and the traits MemoryRead / MemoryWrite "
+         "(implemented by the #[memory] macro) are not translated.",
+    technique=" + code translator (AccessRight, MemoryProtection, provided methods of trait Register in impl/src/memory.rs)")
+SOURCE_TIE["C04"] = dict(
+    text=" TIE TO THE SOURCE CODE: tools/translate_cachepath.py (tokenizer, item / type / body parser, three emitters) "
+         "re-translates on every run into gen/CachePathSrc.v: RegisterBase::{with_cache_or_read, read_and_cache, "
+         "write_and_cache} (genapi/src/register_base.rs) and IPort::{read, write} of PortNode (port.rs) statement by "
+         "statement - the ORDER of invalidate_cache_by, length(..)?, the buffer-length check and its error, address(..)?, "
+         "the port access with `?`, the `match self.cacheable` arms, `if self.cacheable != NoCache`, the get_cache hit / "
+         "miss - as computations over (device, variables, cache store); the ValueCtxt forwarders (lib.rs); the traits "
+         "CacheStore / CacheStoreBuilder as records and their implementations for DefaultCacheStore (the two-level HashMap: "
+         "entry / and_modify / or_insert_with, get, get_mut + assignment, the loop of invalidate_by, clear, "
+         "entry().or_default() + push of store_invalidator) and CacheSink as functions on the store value (store.rs, "
+         "builder.rs); RegisterBase::store_invalidators (parser/register_base.rs; the six register parsers are checked to "
+         "call it with their own id). model/CacheOps.v gives the HashMap / Vec operations and the abstract operations "
+         "(length, address, expect_iport_kind, the device) their meaning in terms of model/Cache.v's primitives. "
+         "C04_write_path_from_source and C04_read_path_from_source: over the model's flat association list (as an instance "
+         "of the translated trait) the translated paths ARE m_write_and_cache / m_cached_bytes / m_read_and_cache - same "
+         "result or error, same device accesses in the same order, same cache - for every register, mode, cache, device "
+         "and variable values with a length in 0 .. 2^63-1, cached and uncached context; and over the translated "
+         "DefaultCacheStore / CacheSink they do the same from related states (the paths are proved parametric in the "
+         "store). C04_store_from_source: the table the translated builder code produces from a system's nodes is the "
+         "system's pInvalidator relation, every operation of the translated DefaultCacheStore is the model's for every "
+         "store and key (induction over stores of any size), hence after any sequence of operations the translated store "
+         "answers every key as the model's cache; CacheSink never answers. On the translated code alone: "
+         "C04_write_through_of_source (after a successful write of a WriteThrough register the only block held for the node "
+         "is the one just written, under (address, current length)), C04_nocache_of_source (a NoCache register never "
+         "reaches cache_data, over any store), C04_source_example (non-vacuity). A source change outside the accepted "
+         "shapes (also: a Result that is neither `?`-propagated nor returned, a new CacheStore method, another store "
+         "layout) is reported as a broken proof obligation (ShapeError), a change inside them breaks the equalities.",
+    note=" Also trusted: tools/translate_cachepath.py (parser; rebinding of the one variable an `if let` / `for` body "
+         "writes; a `&mut V` from get_mut / entry().or_default() as the binding of its key; erasure of references) and "
+         "model/CacheOps.v (HashMap as an association list with at most one binding per key, iteration order never used; "
+         "length(..) / address(..) / expect_iport_kind abstract as in model/Cache.v; `length as usize` = r_cast 64); the "
+         "value / set_value / IRegister::read / write bodies of the register node types that call the three paths are not "
+         "translated (model/Cache.v transcribes them; tied by the correspondence).",
+    technique=" + code translator (register caching path: register_base.rs, port.rs, ValueCtxt, DefaultCacheStore / CacheSink)")
 for _pid, _d in SOURCE_TIE.items():
     if _pid in CLAIMED:
         for _k in ("text", "note", "technique"):
